@@ -2,6 +2,7 @@ package lua
 
 import (
 	"bufio"
+	"errors"
 	"fmt"
 	"io"
 	"reflect"
@@ -140,19 +141,92 @@ func isArrayKey(v LNumber) bool {
 	return isInteger(v) && v < LNumber(int((^uint(0))>>1)) && v > LNumber(0) && v < LNumber(MaxArrayIndex)
 }
 
-func parseNumber(number string) (LNumber, error) {
-	var value LNumber
-	number = strings.Trim(number, " \t\n")
-	if v, err := strconv.ParseInt(number, 0, LNumberBit); err != nil {
-		if v2, err2 := strconv.ParseFloat(number, LNumberBit); err2 != nil {
-			return LNumber(0), err2
-		} else {
-			value = LNumber(v2)
-		}
-	} else {
-		value = LNumber(v)
+// numeralKind classifies a trimmed string as a Lua 5.1 numeral: an optional sign followed either by 0x and at
+// least one hexadecimal digit, or by decimal digits with an optional fraction (at least one digit in all) and
+// an optional exponent. Everything else (Go's 0b/0o/octal prefixes, digit separators, inf, nan, hexadecimal
+// floats) is not a numeral.
+const (
+	numeralNone = iota
+	numeralDecimal
+	numeralHex
+)
+
+func numeralKind(s string) int {
+	i := 0
+	if i < len(s) && (s[i] == '+' || s[i] == '-') {
+		i++
 	}
-	return value, nil
+	if i+1 < len(s) && s[i] == '0' && (s[i+1] == 'x' || s[i+1] == 'X') {
+		i += 2
+		if i == len(s) {
+			return numeralNone
+		}
+		for ; i < len(s); i++ {
+			c := s[i]
+			if !('0' <= c && c <= '9' || 'a' <= c && c <= 'f' || 'A' <= c && c <= 'F') {
+				return numeralNone
+			}
+		}
+		return numeralHex
+	}
+	ndigits := 0
+	for ; i < len(s) && '0' <= s[i] && s[i] <= '9'; i++ {
+		ndigits++
+	}
+	if i < len(s) && s[i] == '.' {
+		i++
+		for ; i < len(s) && '0' <= s[i] && s[i] <= '9'; i++ {
+			ndigits++
+		}
+	}
+	if ndigits == 0 {
+		return numeralNone
+	}
+	if i < len(s) && (s[i] == 'e' || s[i] == 'E') {
+		i++
+		if i < len(s) && (s[i] == '+' || s[i] == '-') {
+			i++
+		}
+		nexp := 0
+		for ; i < len(s) && '0' <= s[i] && s[i] <= '9'; i++ {
+			nexp++
+		}
+		if nexp == 0 {
+			return numeralNone
+		}
+	}
+	if i != len(s) {
+		return numeralNone
+	}
+	return numeralDecimal
+}
+
+func parseNumber(number string) (LNumber, error) {
+	number = strings.Trim(number, " \t\n")
+	switch numeralKind(number) {
+	case numeralHex:
+		neg := number[0] == '-'
+		digits := number[2:]
+		if number[0] == '+' || number[0] == '-' {
+			digits = number[3:]
+		}
+		v, err := strconv.ParseUint(digits, 16, 64)
+		if err != nil {
+			return LNumber(0), err
+		}
+		if neg {
+			return -LNumber(v), nil
+		}
+		return LNumber(v), nil
+	case numeralDecimal:
+		// never base 0: a leading zero is not octal in Lua
+		v, err := strconv.ParseFloat(number, LNumberBit)
+		if err != nil {
+			return LNumber(0), err
+		}
+		return LNumber(v), nil
+	}
+	return LNumber(0), errors.New("malformed number")
 }
 
 func popenArgs(arg string) (string, []string) {
